@@ -349,6 +349,23 @@ pub fn from_text(r: &mut Rng) -> Option<(LinearModel, String)> {
     Some((lin, src))
 }
 
+/// Every public accessor must tell the same story as the inherent ones of `LpSolution`: the status through the
+/// `SolveStatus` trait and `BuilderSolution::status`, the objective, and — for every row name, the empty name and an
+/// unknown name — shadow price and activity through the traits / the builder wrapper (`None` where the map has no entry:
+/// unnamed rows report no price through ANY door).  Returns the first disagreement.
+pub fn accessor_disagreement(s: &Sol) -> Option<String> {
+    let get = |k: &str| s.accessors.iter().find(|(n, _)| n == k).map(|(_, v)| v.clone());
+    for (k, v) in &s.accessors {
+        let (what, door_name) = match k.split_once('.') { Some(x) => x, None => continue };
+        let (door, name) = match door_name.split_once(':') { Some((d, n)) => (d, format!(":{}", n)), None => (door_name, String::new()) };
+        if door == "inherent" { continue; }
+        if let Some(base) = get(&format!("{}.inherent{}", what, name)) {
+            if &base != v { return Some(format!("{}{} reads {} through `{}` but {} through the inherent accessor", what, name, v, door, base)); }
+        }
+    }
+    None
+}
+
 pub fn is_continuous(m: &LinearModel) -> bool {
     m.domain().values().all(|d| matches!(d.get_type(), VariableType::Real(_, _) | VariableType::NonNegativeReal(_, _)))
 }
